@@ -299,7 +299,7 @@ struct MemWorld : World
     int slots = r.chance(1, 3) ? 2 : 8;
     int mmu = r.chance(1, 3) && logsz <= 16;
     int reuse = r.chance(1, 3);
-    int total_as_mask = r.chance(1, 4);
+    int total_as_mask = (int)r.chance(1, 4) | ((int)r.chance(1, 3) << 1); // bit 1: the backend hands null addresses to the core's finder
     p.cfg = { logsz, registry, nsbx, slots, mmu, reuse, total_as_mask };
     int64_t size = 1LL << logsz;
     int n = (int)r.range(6, thorough ? 60 : 45);
@@ -1522,7 +1522,12 @@ struct MemWorld : World
           push<char>(s, rlbox::sandbox_reinterpret_cast<char*>(&t->next), "field_addr");
           break;
         case 2:
-          push<int*>(s, &t->data, "field_addr");
+          // (spelt with * and . in half of the cases: that path has no null test of its own, the refusal of a null
+          // struct pointer then rests on the membership test of the dereference)
+          if (op.a[2] & 32)
+            push<int*>(s, &(*t).data, "field_addr");
+          else
+            push<int*>(s, &t->data, "field_addr");
           break;
         case 3:
           push<char>(s, rlbox::sandbox_reinterpret_cast<char*>(&t->name), "field_addr");
@@ -1534,7 +1539,10 @@ struct MemWorld : World
           push<char>(s, &t->name[(size_t)((uint64_t)op.a[2] % 8)], "field_addr");
           break;
         default:
-          push<long long>(s, rlbox::sandbox_reinterpret_cast<long long*>(&t->big), "field_addr");
+          if (op.a[2] & 32)
+            push<long long>(s, rlbox::sandbox_reinterpret_cast<long long*>(&(*t).big), "field_addr");
+          else
+            push<long long>(s, rlbox::sandbox_reinterpret_cast<long long*>(&t->big), "field_addr");
           break;
       }
     });
@@ -2545,7 +2553,8 @@ struct MemWorld : World
     Sbx::n_registry = 0;
     Sbx::cfg.mmu = p.cfg.size() > 4 && p.cfg[4] && logsz <= 16;
     Sbx::cfg.reuse = p.cfg.size() > 5 && p.cfg[5];
-    Sbx::cfg.total_as_mask = p.cfg.size() > 6 && p.cfg[6];
+    Sbx::cfg.total_as_mask = p.cfg.size() > 6 && (p.cfg[6] & 1);
+    Sbx::cfg.null_to_finder = p.cfg.size() > 6 && (p.cfg[6] & 2);
     if (Sbx::cfg.total_as_mask)
       c.probe("backend_reports_total_memory_as_mask");
     c.ev("cfg size=2^%d registry=%d nsbx=%d slots=%d mmu=%d", logsz, (int)registry, nsbx, Sbx::cfg.slots, (int)Sbx::cfg.mmu);
